@@ -10,6 +10,7 @@ documented action range).
 import JumanjiModel.Env.MultiCVRP.Lemmas
 import JumanjiModel.Env.MultiCVRP.History
 import JumanjiModel.Env.MultiCVRP.Bounds
+import JumanjiModel.Env.MultiCVRP.BoundsF32Lemmas
 import JumanjiModel.Env.MultiCVRP.ReturnLemmas
 open Jm MultiCVRP
 
@@ -70,6 +71,66 @@ example : DistOK exampleLim [[0, 1, 1, 7/5], [1, 0, 7/5, 1], [1, 7/5, 0, 1], [7/
 example : validDrawB MultiCVRP.exampleCfg exampleLim
     { coords := [[0, 1/2], [1, 1], [1/3, 1/3], [1/5, 4/5]], scaled := [0, 7, 0, 3], winStart := [0, 0, 0, 0],
       coefEarly := [1/5, 1/10, 0, 1], coefLate := [1, 1/2, 1/3, 0] } := by decide +kernel
+
+/-! #### `vehicles.local_times` under ROUNDED accumulation (float32 model), Env/MultiCVRP/BoundsF32Lemmas.lean -/
+
+/-- every step with a rounding function that is monotone, fixes 0 and fixes the multiples `k · dmax`,
+`k ≤ 2·numCustomers` (`RndOK`): ALL ten leaves, `vehicles.local_times ∈ [0, 2·numCustomers·dmax]` included;
+other hypotheses as in `multicvrp_step_obs_in_bounds` (which is the case `rnd = id`) -/
+theorem multicvrp_step_obs_in_bounds_rnd (rnd : Rat → Rat) (c : Cfg) (L : Lim) (D : Dist) (s : State)
+    (a : List Nat) (hr : RndOK rnd L.dmax (2 * c.numCustomers)) (hD : DistOK L D) (h : BInv c L s)
+    (hk : s.stepCount ≤ 2 * c.numCustomers) :
+    Jm.OB.InBounds (obsBounds c L) (obsLeaves (step rnd c D s a).2.obs) :=
+  MultiCVRP.step_obs_in_bounds_rnd rnd c L D s a hr hD h hk
+
+/-- … and the invariant is preserved by such a step (so the bounds hold along every episode) -/
+theorem multicvrp_step_bInv_rnd (rnd : Rat → Rat) (c : Cfg) (L : Lim) (D : Dist) (s : State) (a : List Nat)
+    (K : Nat) (hr : RndOK rnd L.dmax K) (hk : s.stepCount ≤ K) (hD : DistOK L D) (h : BInv c L s) :
+    BInv c L (step rnd c D s a).1 := MultiCVRP.step_bInv_rnd rnd c L D s a K hr hk hD h
+
+/-- `Jx.roundF32` satisfies `RndOK` for every `dmax = j · 2^sh` whose multiples up to `K` are binary32 values
+(`K · j < 2^24`, `sh ≥ −149`): monotonicity of `roundF32` + binary32 values are fixed points -/
+theorem multicvrp_roundF32_rndOK (j : Nat) (sh : Int) (K : Nat) (hs : -149 ≤ sh) (hj : K * j < 16777216) :
+    RndOK Jx.roundF32 ((j : Rat) * Jx.pow2 sh) K := MultiCVRP.roundF32_rndOK j sh K hs hj
+
+/-- the float32 model (every accumulation `local_times + travel` rounded by `Jx.roundF32`): every step, any
+joint action, from a state satisfying `BInv` that has not timed out, distances in `[0, dmax]`, where the bound
+`dmax` on one travel distance is chosen with a short significand: `dmax = j · 2^sh`, `2·numCustomers·j < 2^24` -/
+theorem multicvrp_step_obs_in_bounds_roundF32 (c : Cfg) (L : Lim) (D : Dist) (s : State) (a : List Nat)
+    (j : Nat) (sh : Int) (hdm : L.dmax = (j : Rat) * Jx.pow2 sh) (hs : -149 ≤ sh)
+    (hj : 2 * c.numCustomers * j < 16777216) (hD : DistOK L D) (h : BInv c L s)
+    (hk : s.stepCount ≤ 2 * c.numCustomers) :
+    Jm.OB.InBounds (obsBounds c L) (obsLeaves (step Jx.roundF32 c D s a).2.obs) :=
+  MultiCVRP.step_obs_in_bounds_rnd Jx.roundF32 c L D s a (hdm ▸ MultiCVRP.roundF32_rndOK j sh _ hs hj) hD h hk
+
+theorem multicvrp_step_bInv_roundF32 (c : Cfg) (L : Lim) (D : Dist) (s : State) (a : List Nat)
+    (j : Nat) (sh : Int) (hdm : L.dmax = (j : Rat) * Jx.pow2 sh) (hs : -149 ≤ sh)
+    (hj : 2 * c.numCustomers * j < 16777216) (hD : DistOK L D) (h : BInv c L s)
+    (hk : s.stepCount ≤ 2 * c.numCustomers) : BInv c L (step Jx.roundF32 c D s a).1 :=
+  MultiCVRP.step_bInv_rnd Jx.roundF32 c L D s a _ (hdm ▸ MultiCVRP.roundF32_rndOK j sh _ hs hj) hk hD h
+
+/-- the hypotheses are satisfiable: `exampleLim.dmax = 3/2 = 3 · 2^-1` and `2 · 3 · 3 < 2^24` (with the
+state, matrix and limits of the examples above) -/
+example : exampleLim.dmax = ((3 : Nat) : Rat) * Jx.pow2 (-1) ∧ (-149 : Int) ≤ -1 ∧
+    2 * MultiCVRP.exampleCfg.numCustomers * 3 < 16777216 := by decide +kernel
+
+/-- the representability hypothesis cannot be dropped.  A 3-customer instance (`f32WitnessState`, one vehicle,
+all depot–customer distances equal to `dmax = 1 + 3·2^-23`, a binary32 value) satisfies every hypothesis of the
+exact-arithmetic theorem `multicvrp_step_obs_in_bounds`, yet in the float32 model the sixth leg of the route
+1, depot, 2, depot, 3, depot gives `local_times = 6 + 5·2^-21 > 6·dmax`: the observation leaves `obsBounds` -/
+theorem multicvrp_local_times_roundF32_counterexample :
+    BInv f32WitnessCfg f32WitnessLim f32WitnessState ∧ DistOK f32WitnessLim f32WitnessDist ∧
+    f32WitnessS5 = f32Run f32WitnessState [[1], [0], [2], [0], [3]] ∧
+    f32WitnessS5.stepCount ≤ 2 * f32WitnessCfg.numCustomers ∧
+    ¬ Jm.OB.InBounds (obsBounds f32WitnessCfg f32WitnessLim)
+        (obsLeaves (step Jx.roundF32 f32WitnessCfg f32WitnessDist f32WitnessS5 [0]).2.obs) :=
+  ⟨MultiCVRP.f32Witness_hyps.1, MultiCVRP.f32Witness_hyps.2.1, rfl, MultiCVRP.f32Witness_hyps.2.2.2,
+   MultiCVRP.f32Witness_out_of_bounds⟩
+
+/-- and `BInv` is not an invariant of the float32 step under `DistOK` alone -/
+theorem multicvrp_step_bInv_roundF32_false :
+    ¬ ∀ (c : Cfg) (L : Lim) (D : Dist) (s : State) (a : List Nat), DistOK L D → BInv c L s →
+        BInv c L (step Jx.roundF32 c D s a).1 := MultiCVRP.step_bInv_roundF32_false
 end Props.C01
 
 namespace Props.C04
